@@ -14,6 +14,7 @@ _UNIT_MODULES = [
     "units.u_format.unit",
     "units.u_inspect.unit",
     "units.u_report.unit",
+    "units.u_limits.unit",
 ]
 
 UNITS = {}
@@ -28,7 +29,7 @@ REPORT_TB = ["diagn::Report contracts (units/contracts_report.py: error*/warning
 RESOLVER_TB = ["ASSUMED contracts of unverified customasm code used by U-resolver/U-iterate: asm::resolver::eval / eval_certain ('Err is loud, Ok is clean'), resolve_constant / resolve_instruction (the per-item pass contract), ResolveIterator::new/next (flags copied; the yielded node refers to defined items), Value::expect_error_or_bigint / expect_bool, DefList::get_mut (frame), derived PartialEq of expr::Value",
                "ghost event `ItemDefs::confirmed()` is produced only by resolve_once's stub clause [confirms] (a name for 'a no-guess pass answered Resolved'); termination of resolve_once's loop is not proved"]
 
-ALL_UNITS = ["U-overlap", "U-bigint", "U-constrain", "U-resolver", "U-iterate", "U-bitvec", "U-output", "U-charcount", "U-symbols", "U-rulemap", "U-literal", "U-format", "U-inspect", "U-report"]
+ALL_UNITS = ["U-overlap", "U-bigint", "U-constrain", "U-resolver", "U-iterate", "U-bitvec", "U-output", "U-charcount", "U-symbols", "U-rulemap", "U-literal", "U-format", "U-inspect", "U-report", "U-limits"]
 
 PROPERTIES = {
     "C01": {
@@ -87,8 +88,8 @@ PROPERTIES = {
     },
     "C19": {
         "units": ALL_UNITS,
-        "claim": "Machine-word arithmetic is not treated as mathematical: every usize/u64 operation in the verified set carries an overflow obligation, all discharged except the listed known findings D9a-D9h (unchecked position arithmetic). Proved limits: checked_add/sub/mul/shl never yield more than BIGINT_MAX_BITS bits and fail loudly beyond the cap; checked_into/expect_usize/expect_nonzero_usize are exact and total on their range.",
-        "not_reached": "stack depth and recursion limits of the parser/evaluator (check_recursion_limit lives in string/closure code), time and memory bounds",
+        "claim": "Machine-word arithmetic is not treated as mathematical: every usize/u64 operation in the verified set carries an overflow obligation, all discharged except the listed known findings D9a-D9h (unchecked position arithmetic). Proved limits: checked_add/sub/mul/shl never yield more than BIGINT_MAX_BITS bits and fail loudly beyond the cap; checked_into/expect_usize/expect_nonzero_usize are exact and total on their range; the evaluation depth check (function calls, asm blocks) fails loudly exactly at depth 25 and above.",
+        "not_reached": "that the depth counter is incremented on every recursive path and the parser's own limit (check_recursion_limit sits on the token walker), stack depth as such, time and memory bounds",
         "trusted_base": NUMBIGINT_TB + REPORT_TB + RESOLVER_TB,
     },
     "C04": {
